@@ -182,6 +182,40 @@ pub fn run(cfg: &Cfg, rep: &mut Report) {
             }
         }
     }
+    // wide types: structs / tuples / unions / parameter lists with many members (printing must not abbreviate)
+    if cfg.shard == 0 {
+        let leaf = [Ty::Int, Ty::Str, Ty::Float, Ty::Bool, Ty::Void, Ty::arr(Ty::Int), Ty::mutc(Ty::Int), Ty::Tup(vec![Ty::Int, Ty::Str])];
+        for n in [0usize, 1, 2, 5, 7, 8, 9, 10, 12, 16, 17, 32, 33, 64, 100] {
+            let mut fs = std::collections::BTreeMap::new();
+            for k in 0..n {
+                fs.insert(format!("f{k}"), leaf[k % leaf.len()].clone());
+            }
+            let st = Ty::Struct(fs);
+            let tup = Ty::Tup((0..n.max(2)).map(|k| leaf[k % leaf.len()].clone()).collect());
+            let fun = Ty::fun((0..n).map(|k| leaf[k % leaf.len()].clone()).collect(), Ty::Int);
+            let uni_wide = Ty::union((0..n.max(2)).map(|k| Ty::Tup(vec![leaf[k % leaf.len()].clone(); 2 + k / leaf.len()])).collect::<Vec<_>>());
+            for t in [st.clone(), tup, fun, uni_wide, Ty::arr(st.clone()), Ty::mutc(st.clone()), Ty::fun(vec![st.clone()], st.clone()), Ty::union([st.clone(), Ty::Int])] {
+                rep.count("wide-types");
+                check_type(&t, reps.min(8), rep);
+            }
+            // the type filter over structs that lack exactly one of the fields
+            if n > 0 && n <= 17 {
+                let val = |k: usize| ["1", "\"s\"", "2.5", "true", "()", "[1]", "mut 1", "(1, \"s\")"][k % 8];
+                let full: Vec<String> = (0..n).map(|k| format!("f{k} := {}", val(k))).collect();
+                let mut elems = vec![format!("struct{{{}}}", full.join(", "))];
+                for miss in 0..n {
+                    let part: Vec<String> = (0..n).filter(|k| *k != miss).map(|k| format!("f{k} := {}", val(k))).collect();
+                    elems.push(format!("struct{{{}}}", part.join(", ")));
+                }
+                let src = format!("std.len([{}]~ ? {} $])", elems.join(", "), st.text());
+                rep.evaluations += 1;
+                match real::parse_exec(&src, true) {
+                    Outcome::Value(Variable::Int(1)) => rep.count("wide-struct-filter-held"),
+                    other => rep.violation("c15:type-filter:wide-struct", &format!("a filter by a struct type of {n} fields over one complete struct and {n} structs each lacking one field selected {} element(s), expected 1", match &other { Outcome::Value(v) => canon(v), o => o.tag() }), "c15-type", &st.text()),
+                }
+            }
+        }
+    }
     let mut rng = cfg.rng(15);
     let n = cfg.per_shard(300_000, 12_000_000);
     for i in 0..n {
